@@ -186,3 +186,15 @@ Theorem C07_rma_error_independent_of_length (a b y0 m : PrimFloat.float) (xs : l
         - rma_peek (steps (rma_next (N := NumR)) (@mkRMA NumR (val a) (val b) (val y0)) (map val xs)))
    <= (u64 * (4 * val m + eta64) + 2 * eta64) / (1 - val b))%R.
 Proof. exact (rma_model_accuracy a b y0 m xs). Qed.
+(** (8) the SMA recurrence of the model, v' = v + (x - old) * d: the value held by the model's SMA after any stream is this recurrence
+    over the pairs (input, value leaving the window) it met ([sma_pairs]: the window is the model's own), and on binary64 it stays
+    within 2^-53 * (magnitudes of the operations performed so far) + n * 2^-1075 of the exact recurrence: linear growth, hypotheses
+    decided by computation ([sma_okb]) *)
+From Yata Require Import Proofs.RoundingLinkSma.
+Theorem C07_sma_model_is_recurrence {pw : PW} (d v : PrimFloat.float) (w : window PrimFloat.float) xs :
+  sma_value (steps (sma_next (N := NumF64)) (@mkSMA NumF64 d v w) xs) = smaF d v (rev (sma_pairs (N := NumF64) w xs)).
+Proof. exact (sma_model_f d v w xs). Qed.
+Theorem C07_sma_rounding_link (d v0 : PrimFloat.float) (l : list (PrimFloat.float * PrimFloat.float)) : fin d -> sma_okb d v0 l = true ->
+  (Rabs (val (smaF d v0 l) - smaR (val d) (val v0) (map (fun p => (val (fst p), val (snd p))) l))
+   <= u64 * sma_scale d v0 l + INR (length l) * eta64)%R.
+Proof. intros Fd Hb. exact (proj2 (sma_rounding_link d v0 l Fd (sma_okb_ok d v0 l Fd Hb))). Qed.
